@@ -1063,3 +1063,31 @@ def g_gate_rnd_back(rng, level=0, n_random=80):
 for _k in ('Pauli.as_list', 'Pauli.as_monomial', 'Pauli.as_polynomial', 'Pauli.tokenize'):
     gen(PA + _k)(g_pauli)
 gen(PA + 'PauliList.as_polynomial')(g_plist)
+
+
+def _mlayer_case(rng):
+    import pyclifford.circuit as ci
+    N = int(rng.integers(1, 5))
+    q = tuple(int(x) for x in rng.choice(N, size=int(rng.integers(1, N + 1)), replace=False))
+    st = _rand_state(rng, N)
+    st.r = 0
+    return ci.MeasureLayer(*q, N=N), st, q
+
+
+@gen(CI + 'MeasureLayer.backward#record')
+def g_mlayer_back(rng, level=0, n_random=150):
+    for k in range(n_random):
+        ml, st, q = _mlayer_case(rng)
+        L = len(q) if k % 7 else len(q) + 1           # sometimes a record of the wrong length (must raise ValueError: allowed)
+        yield {'self': ml, 'obj': st, 'measure_result': [int(x) for x in rng.choice([1, -1], size=L)]}
+
+
+@gen(CI + 'MeasureLayer.backward#own')
+def g_mlayer_back_own(rng, level=0, n_random=150):
+    for k in range(n_random):
+        ml, st, q = _mlayer_case(rng)
+        if k % 3 == 0:
+            ml.forward(st.copy())                      # a record the layer made itself
+        else:
+            ml.result = np.array([int(x) for x in rng.choice([1, -1], size=len(q))])
+        yield {'self': ml, 'obj': st, 'measure_result': None}
